@@ -224,6 +224,13 @@ def run(ctx):
               "a merged bin no longer reaches from the run's first left edge to its last right edge", ab.where)
     n_mr, off_mr = must_raise(ab.node, lambda e: U(e) == "np.any(np.isnan(bins))", when=True)
     nan_ok = nan_ok and n_mr >= 1 and not off_mr
+    # the merged binning still closes its last bin on the right iff the source did and the last edge is unchanged
+    defs_ire = [U(n.value) for n in ast.walk(ab.node) if isinstance(n, ast.Assign) and U(n.targets[0]) == "includes_right_edge"]
+    ctor_ = [c for c in calls_in(ab.node) if U(c.func) == "StaticBinning"]
+    okire = defs_ire in (["self.includes_right_edge and bins[-1, 1] == self.bins[-1, 1]"], ["bins[-1, 1] == self.bins[-1, 1] and self.includes_right_edge"]) \
+        and len(ctor_) == 1 and U(kwarg(ctor_[0], "includes_right_edge")) == "includes_right_edge" and U(ctor_[0].args[0]) == "bins"
+    ctx.check(okire, "C10.c", "apply_bin_map:right-edge-kept", "StaticBinning(bins, includes_right_edge = source flag and unchanged last edge)",
+              f"includes_right_edge = {defs_ire}; constructor call {[U(c)[:70] for c in ctor_]}", ab.where)
     ctx.check(nan_ok, "C10.c", "apply_bin_map:complete", "an incomplete map (unfilled new bin) is refused", "incomplete maps are not refused", ab.where)
     ln = [n for n in ast.walk(ab.node) if isinstance(n, ast.Assign) and U(n.targets[0]) == "length"]
     ctx.check(any(U(n.value) == "max((item[1] for item in bin_map)) + 1" for n in ln), "C10.c", "apply_bin_map:length",
